@@ -15,7 +15,7 @@ from xdsl.interpreter import (
     impl_terminator,
     register_impls,
 )
-from xdsl.ir import Attribute, Operation, OpResult, SSAValue
+from xdsl.ir import Attribute, Operation, OpResult, SSAValue, TypedAttribute
 from xdsl.irdl import IRDLOperation
 from xdsl.pattern_rewriter import PatternRewriter
 from xdsl.rewriter import InsertPoint
@@ -181,6 +181,19 @@ class PDLInterpFunctions(InterpreterFunctions):
             return (args[0].properties[attrname],)
         else:
             return (None,)
+
+    @impl(pdl_interp.GetAttributeTypeOp)
+    def run_get_attribute_type(
+        self,
+        interpreter: Interpreter,
+        op: pdl_interp.GetAttributeTypeOp,
+        args: tuple[Any, ...],
+    ) -> tuple[Any, ...]:
+        (attribute,) = args
+        # Attributes without a type have a null type
+        if isinstance(attribute, TypedAttribute):
+            return (attribute.get_type(),)
+        return (None,)
 
     @impl(pdl_interp.GetValueTypeOp)
     def run_get_value_type(
